@@ -73,6 +73,7 @@ def gen_formatter(rng):
 def gen_src(rng, depth=0, maxn=4, comps=True, fmts=True, vars_=VAR_NAMES, comp_names=COMP_NAMES):
     """source AST: list of {"k":"text"|"var"|"comp", ...}; printing is `print_src`"""
     items = []
+    vars_ = vars_ or ["x"]
     for _ in range(rng.range(0 if depth else 1, maxn)):
         r = rng.below(10)
         if r < 4:
